@@ -420,6 +420,8 @@ pub fn run_session(ctx: &mut Ctx, t: &mut Tape, mode: Mode) {
                                     && old_x.nodes.iter().any(|n| n.parent.is_some() && n.start <= i && i < n.end && n.has_error);
                                 let cls = if in_error_region {
                                     "erroneous_region"
+                                } else if (b == b'\n' || b == b'\r') && (ranges_changed || ranges_differ) {
+                                    "newline_with_changed_included_ranges"
                                 } else if b == b'\n' || b == b'\r' {
                                     "newline"
                                 } else if (b == b' ' || b == b'\t') && (ranges_changed || ranges_differ) {
@@ -428,6 +430,8 @@ pub fn run_session(ctx: &mut Ctx, t: &mut Tape, mode: Mode) {
                                     "whitespace_old_tree_erroneous"
                                 } else if b == b' ' || b == b'\t' {
                                     "whitespace"
+                                } else if ranges_changed || ranges_differ {
+                                    "token_with_changed_included_ranges"
                                 } else {
                                     "token"
                                 };
